@@ -16,6 +16,7 @@ import (
 
 	"github.com/Breeze0806/gobinlog/replication"
 	"verif/chk"
+	"verif/e2"
 	"verif/ref"
 )
 
@@ -23,12 +24,16 @@ func init() { chk.Register(&chk.Check{ID: "C17", Run: run, Replay: replay}) }
 
 func run(r *chk.Run) {
 	RunCodec(r)
+	// end-to-end half: malformed packets injected into a history served to the real Stream
+	e2.RunInjection(r)
 }
 
 func replay(kind string, input json.RawMessage) (bool, string) {
 	switch kind {
 	case "gate":
 		return ReplayCodec(input)
+	case "injection":
+		return e2.ReplayInjection(input)
 	}
 	return false, "unknown replay kind " + kind
 }
